@@ -13,7 +13,7 @@ C == Traces[tid].cfg
 TraceInit ==
     /\ tid \in 1..Len(Traces)
     /\ l = 1
-    /\ InitWith([method |-> C.method, version |-> C.version, ctype |-> C.ctype, ae |-> C.ae, pre |-> C.pre])
+    /\ InitWith([method |-> C.method, version |-> C.version, ctype |-> C.ctype, ae |-> C.ae, pre |-> C.pre, resp |-> C.resp])
 IsEvent(a) == l <= Len(Ev) /\ Ev[l].a = a /\ l' = l + 1 /\ UNCHANGED tid
 Bind == (run' = "raised") = (Ev[l].obs.err # "none")
 TrWrite == IsEvent("write") /\ WriteRuns(Ev[l].args[1]) /\ Bind
